@@ -156,7 +156,7 @@ def cc_harness(src, bdir, kind="asan", extra=(), wrap=False, out=None, libs=("mf
                                  "-I" + os.path.join(VERIF, "harness"), "-DREPO=\"%s\"" % REPO,
                                  srcp, "-o", outp] + list(extra)
         if wrap:
-            cmd += ["-Wl,--wrap=fopen,--wrap=fread,--wrap=fwrite,--wrap=fseek,--wrap=fflush,--wrap=fclose,--wrap=ftell"]
+            cmd += ["-Wl,--wrap=fopen,--wrap=fread,--wrap=fwrite,--wrap=fseek,--wrap=fflush,--wrap=fclose,--wrap=ftell,--wrap=ferror,--wrap=clearerr"]
         for l in libs:
             cmd.append(os.path.join(bdir, "bin", "lib%s.a" % l))
         cmd += ["-lz", "-ljpeg", "-lm"]
